@@ -1076,7 +1076,7 @@ static void part_bbox(const Args& a) {
     // coordinate pairs: lon k -> (k - 1800000000, k) for k in [0, 1800000000]; lat j -> (j - 900000000, j), j = k / 2
     HeaderCodec hc;
     const uint64_t K = 1800000001ull;
-    const double budget_s = a.thorough ? std::min(a.deadline_s, 300.0) : std::min(a.deadline_s, 8.0);
+    const double budget_s = a.thorough ? std::min(a.deadline_s, 660.0) : std::min(a.deadline_s, 8.0);
     auto t0 = std::chrono::steady_clock::now();
     auto spent = [&] { return std::chrono::duration<double>(std::chrono::steady_clock::now() - t0).count(); };
     uint64_t bad = 0, reported = 0;
